@@ -89,13 +89,14 @@ theorem recv_requires_fresh (s : State) (p : Packet) (π : Proof) (h : Nat) (t :
 
 /-- **Liveness half.** A genuinely committed, well-formed packet that has been neither received
     nor cleaned is accepted by the packet layer of its next hop when relayed with the genuine,
-    current proof: all pre-write checks pass (`RecvOk`), hence `RecvPacket` performs its write
+    current proof (through a client that is Active): all pre-write checks pass (`RecvOk`), hence `RecvPacket` performs its write
     phase. -/
 theorem recv_accepts_live_packet (s : Core) (p : Packet) (h : Nat) (cl : Client) (sn : Snapshot)
     (hbasic : packetBasic p = true)
     (hinvolved : p.relay = s.name ∨ p.dst = s.name ∨ p.src = s.name)
     (hclean : s.ps.clean p.pair < p.seq) (hnr : s.ps.receipt p.key = false)
-    (hcl : s.clients (recvProver s p) = some cl) (hh : h ≤ cl.latest) (hsn : cl.cons h = some sn)
+    (hcl : s.clients (recvProver s p) = some cl) (hact : cl.active s.now = true)
+    (hh : h ≤ cl.latest) (hsn : cl.cons h = some sn)
     (hcommitted : sn.commit p.key = some (H p.data)) :
     recvPacket H s p (.honest (recvProver s p) h (.commit p.key)) h = recvWrites H s p := by
   have hv : validatePacket s p = .ok := by
@@ -108,6 +109,6 @@ theorem recv_accepts_live_packet (s : Core) (p : Packet) (h : Nat) (cl : Client)
     simp [h3]
   rcases recvPacket_cases H s p (.honest (recvProver s p) h (.commit p.key)) h with ⟨_, e⟩ | ⟨hno, _⟩
   · exact e
-  · exact absurd ⟨hv, hnr, cl, sn, hcl, hh, hsn, rfl, hcommitted⟩ hno
+  · exact absurd ⟨hv, hnr, cl, sn, hcl, hact, hh, hsn, rfl, hcommitted⟩ hno
 
 end Tibc.C02
